@@ -491,7 +491,7 @@ fn gen(a: &Args) {
     if let Some(lines) = a.replay_lines() {
         for l in lines { if let Some(h) = parse_hist(&l) { hs.push((h, "replay")); } }
     } else {
-        let n = if a.thorough() { 10_000 } else { 700 };
+        let n = if a.thorough() { 6_000 } else { 500 };
         for _ in 0..n { hs.push(gen_history(&mut rng, a.thorough())); }
     }
     let all_obs = run_all(&hs.iter().map(|x| x.0.clone()).collect::<Vec<_>>(), "gen");
